@@ -315,10 +315,10 @@ func FamLazy() Family {
 	conds := []*Term{tt, ff, b, nb, Call("==", Call("tr", N("1")), N("1")), Call("<", Call("tr", N("5")), N("1"))}
 	type tri func(c, x, y *Term) *Term
 	tris := map[string]tri{
-		"if":    func(c, x, y *Term) *Term { return If(c, x, y) },
-		"?:":    func(c, x, y *Term) *Term { return Ternary(c, x, y) },
-		"pick":  func(c, x, y *Term) *Term { return Call("pick", c, x, y) },
-		"if.m":  func(c, x, y *Term) *Term { return Method("if", c, x, y) },
+		"if":   func(c, x, y *Term) *Term { return If(c, x, y) },
+		"?:":   func(c, x, y *Term) *Term { return Ternary(c, x, y) },
+		"pick": func(c, x, y *Term) *Term { return Call("pick", c, x, y) },
+		"if.m": func(c, x, y *Term) *Term { return Method("if", c, x, y) },
 	}
 	for _, name := range []string{"if", "?:", "pick", "if.m"} {
 		mk := tris[name]
